@@ -22,16 +22,21 @@
 (*   res        = the result of the last call (not part of the VIEW)       *)
 (* One action per public call: Assign, Drop, Read, Mutate, Copy, Fresh.    *)
 (*                                                                         *)
-(* Invariants (closed configuration, 2 objects): MemoSound (a clean memo   *)
-(* is the records of the current field), ResSound (a read in the clean     *)
-(* zone returned them).                                                    *)
+(* Invariants (closed configurations: 2 interchangeable objects -- model   *)
+(* values + SYMMETRY ObjSym -- over OFields, and the complete one-object   *)
+(* LTS over both fields that x05.py replays): MemoSound (a clean memo is   *)
+(* the records of the current field), NoGhostMemo, ResSound (a read in the *)
+(* clean zone returned them; action property, res is outside the VIEW),    *)
+(* PaletteDecided (the statement decides every palette line and agrees     *)
+(* with the implementation layer on it).                                   *)
 (* Spec-level negative control (tried; x05.py re-runs it in every check):  *)
 (*   SharedMemo = TRUE  (the cache is a class attribute shared by all      *)
 (*                       objects)                  -> MemoSound violated   *)
 (***************************************************************************)
 EXTENDS Removals
 
-CONSTANTS Objs,        \* object names (naturals)
+CONSTANTS Objs,        \* object names
+          OFields,     \* the fields modelled: a subset of {"src", "bin"}
           Rich,        \* 0, 1, 2: how many field contents are offered
           SharedMemo,  \* negative control
           EmitObj      \* TRUE: print one EDGE line per evaluated action instance
@@ -39,7 +44,7 @@ CONSTANTS Objs,        \* object names (naturals)
 VARIABLES fld, zone, memo, res
 ovars == <<fld, zone, memo, res>>
 
-Fields == {"src", "bin"}
+Fields == OFields
 
 ----------------------------------------------------------------------------
 \* a palette of lines (ids 1..7 name the words; 90.. the fixed texts)
@@ -132,6 +137,8 @@ ONext == /\ Pin
 OSpec == OInit /\ [][ONext]_<<vars, ovars>>
 
 OView == <<fld, zone, memo>>
+\* the objects are interchangeable (used with model values in the 2-object configurations)
+ObjSym == Permutations(Objs)
 
 ----------------------------------------------------------------------------
 OTypeOK == /\ \A o \in Objs, f \in Fields : zone[o][f] \in {"fresh", "read", "unspec"}
